@@ -170,7 +170,7 @@ impl Engine for TxSim {
             }
             let coinbase = if rng.chance(1, 5) { Some(*rng.pick(&world.universe)) } else { None };
             let force_halt = if self.focus != "C07" && rng.chance(1, 8) {
-                Some(ForceHalt { at_step: if rng.bool() { rng.below(12) } else { rng.below(120) }, result: rng.pick(&["stop", "revert", "halt"]).to_string() })
+                Some(ForceHalt { at_step: if rng.bool() { rng.below(12) } else { rng.below(120) }, result: rng.pick(&["stop", "revert", "halt"]).to_string(), in_step: rng.chance(1, 3) })
             } else {
                 None
             };
